@@ -1,6 +1,7 @@
 import GqlgenVerif.Model.Naming
 import GqlgenVerif.Lemmas.Naming
 import GqlgenVerif.Lemmas.Emitted
+import GqlgenVerif.Lemmas.TypeRef
 /-!
 # C17 — generated identifiers are valid and collision-free (the provable half of C17)
 
@@ -160,5 +161,73 @@ example : (runCalls toGo [] (modelCalls [] [{ kind := .model, name := str "foo_b
       [{ kind := .enum, name := str "E", values := [str "value", str "Value", str "VALUE"] }])).1.eraseDups
     = [some (str "FooBar"), some (str "FooBar0"), some (str "E"), some (str "EValue"), some (str "EValue0"), some (str "EVALUE")] := by
   decide
+
+
+/-! ## The is-list decision: a named GraphQL type is never (un)marshalled element-wise, whatever its Go type
+
+`Model/TypeRef.lean` mirrors `CopyModifiersFromAst`, `(*TypeReference).IsSlice/IsPtrToSlice/IsPtrToPtr/IsPtrToIntf/
+Elem`, `codegen.processType` and the (un)marshal functions of `type.gotpl` for leaf types; `IsSlice`'s return
+expression, `Elem`'s branch order and `processType`'s recursion condition are REGENERATED from binder.go / type.go
+into `Gen/TypeRefRules.lean` (go/extract/typerefrules.go). The bound Go type (`target`) is universally quantified:
+unnamed slices (`[]byte`), named slices, maps, pointers, structs, arrays, basic types. -/
+section TypeRefs
+open GqlgenVerif.TypeRef GqlgenVerif.Gen.TypeRefRules
+
+/-- the regenerated `IsSlice` rule needs BOTH a GraphQL list (`ref.GQL.Elem != nil`) and a Go slice, and holds then -/
+theorem isSliceRule_needs_gql_list : ∀ b, isSliceRule false b = false := by decide
+theorem isSliceRule_needs_go_slice : ∀ b, isSliceRule b false = false := by decide
+theorem isSliceRule_list_of_slice : isSliceRule true true = true := by decide
+
+/-- the shapes of `Elem()` and of `processType`'s recursion condition the model was written against -/
+theorem typeref_rules_expected :
+    elemBranches = ["pointer", "IsSlice"] ∧
+    processTypeRecursesOn = ["IsSlice", "IsPtrToSlice", "IsPtrToPtr", "IsPtrToIntf"] := by decide
+
+/-- **named_never_slice**: a reference to a NAMED GraphQL type is never a slice reference - for EVERY Go type,
+in particular for a scalar bound to `[]byte`. -/
+theorem named_never_slice (tag : String) (nn : Bool) (go : GoT) : isSlice (.named tag nn) go = false :=
+  TypeRef.named_never_slice tag nn go
+
+/-- **processType_never_nil_gql**: for EVERY Go type and GraphQL type, `codegen.processType` never reaches the
+reference with a nil `GQL` that `Elem()` builds when `IsSlice` holds without `GQL.Elem` (generator panic). -/
+theorem processType_never_nil_gql (go : GoT) (g : GType) : (processType go g).2 = false :=
+  TypeRef.processType_never_nil_gql go g
+
+/-- **named_is_one_leaf**: a named type is one leaf written by its bound marshaller called on the WHOLE input
+(e.g. the list literal `["a","b"]`), for every Go type that is nilable when the GraphQL type is nullable (what
+`CopyModifiersFromAst` guarantees, see `echo_eq_spec`). -/
+theorem named_is_one_leaf (go : GoT) (tag : String) (nn : Bool) (v : Val)
+    (hnil : nn = false → go.isNilable = true ∧ go.isPtrToPtr = false)
+    (hfit : fits (.named tag nn) v = true) :
+    echo go (.named tag nn) v = spec (.named tag nn) v :=
+  TypeRef.named_is_one_leaf go tag nn v hnil hfit
+
+/-- **echo_eq_spec** (argument / input-field position): for every GraphQL type, every bound Go type and every input
+without a null at a non-null position, generated unmarshal + marshal = Spec: element-wise exactly at the GraphQL
+list levels, one call of the bound function per named leaf. (`target` not `**T`: then a null input reaches the
+bound function instead of becoming nil - outside what gqlgen documents.) -/
+theorem echo_eq_spec (om : Bool) (g : GType) (target : GoT) (v : Val)
+    (hpp : target.isPtrToPtr = false) (hfit : fits g v = true) :
+    echo (copyModifiers om g target) g v = spec g v :=
+  TypeRef.echo_eq_spec om g target v hpp hfit
+
+/-- **output_eq_spec** (output position): a resolver result with the list structure of the GraphQL type is
+marshalled to the Spec, for every bound Go type. -/
+theorem output_eq_spec (om : Bool) (g : GType) (target : GoT) (v : Val) (hfit : fits g v = true) :
+    marshal (copyModifiers om g target) g (goValOf g v) = spec g v :=
+  TypeRef.output_eq_spec om g target v hfit
+
+/-- non-vacuity, on the shape the seeded change C17-change2 needs: `scalar Bytes` bound to a function pair over
+`[]byte`, given the LIST literal `["a","b"]`, is one leaf; under `[Bytes!]` the same literal is two leaves -/
+example : copyModifiers false (.named "Bytes" false) (.slice .basic) = .slice .basic ∧
+    (GoT.slice .basic).isPtrToPtr = false ∧
+    fits (.named "Bytes" false) (.list [.atom "a", .atom "b"]) = true := by decide
+example : echo (.slice .basic) (.named "Bytes" false) (.list [.atom "a", .atom "b"]) = .leaf "Bytes" "[a,b]" := by
+  rw [TypeRef.named_is_one_leaf _ _ _ _ (by decide) (by decide)]; simp [spec, canon, canonList]
+example : spec (.list (.named "Bytes" true) false) (.list [.atom "a", .atom "b"])
+    = .arr [.leaf "Bytes" "a", .leaf "Bytes" "b"] := by simp [spec, canon]
+example : (processType (copyModifiers false (.list (.named "Bytes" true) false) (.slice .basic))
+    (.list (.named "Bytes" true) false)).1.length = 2 := by decide
+end TypeRefs
 
 end GqlgenVerif.Props.C17
